@@ -72,7 +72,7 @@ def execute(p, res):
 def error_patterns(n, t, exhaustive):
     if exhaustive:
         return list(gf2.patterns_upto(n, t))
-    pats = [0] + [1 << i for i in range(n)]
+    pats = [0] + ([1 << i for i in range(n)] if t >= 1 else [])
     if t >= 2 and n * (n - 1) // 2 <= 2000:
         pats += [(1 << i) | (1 << j) for i in range(n) for j in range(i)]
     if t >= 3 and n <= 24:
